@@ -563,7 +563,9 @@ func genReq(t *rapid.T) Req {
 		}
 	}
 	add("Range", []string{"bytes=0-5", "bytes=0-5,10-", "bytes=-5", "bytes=5-1", "bytes=", "bytes=a-b", "items=0-1", "bytes=0-99999999999999999999", "bytes=-", "bytes=0-0,-1", "=", "bytes=1-2-3"})
-	add("Accept", []string{"text/*;q=0.5, */*", "*/*;q=0", "text/html;level=1;q=0.9, application/json", `text/plain;title="a, b";q=1`, ";q=", ",,,", "a/b;q=1.5", strings.Repeat("a/b,", 200)})
+	add("Accept", []string{"text/*;q=0.5, */*", "*/*;q=0", "text/html;level=1;q=0.9, application/json", `text/plain;title="a, b";q=1`, ";q=", ",,,", "a/b;q=1.5", strings.Repeat("a/b,", 200),
+		// parameterised ranges that no offer satisfies in front of one that matches, several parameterised ranges at once
+		"text/plain;format=flowed, */*", "text/html;level=1, text/html;level=2;q=0.5, */*;q=0.1", "application/json;v=2, text/*", `text/html;a="x\"y";b=c, text/plain;format=fixed;q=0.9, */*;q=0.8`})
 	add("Accept-Charset", []string{"utf-8, iso-8859-1;q=0.5", "*", ";;;"})
 	add("Accept-Encoding", []string{"gzip, br;q=0", "identity;q=0", ""})
 	add("Accept-Language", []string{"en-US,en;q=0.9,de;q=0.8", "*;q=0"})
@@ -750,3 +752,114 @@ var propRaw = vk.Register(&vk.Prop[RawCase]{Property: property, Name: "rawconn",
 
 func TestRawConn(t *testing.T) { propRaw.Run(t) }
 func FuzzRawConn(f *testing.F) { propRaw.Fuzz(f) }
+
+// ---- several connections at once ------------------------------------------------------------------------------
+//
+// A server has many connections; state shared between them (pools handed out twice, caches without locks) only
+// breaks when two of them are served at the same time. Each connection of a case is served on its own goroutine by the
+// same app; every output must still be a well-formed response stream, and the process must survive (a fatal runtime
+// error kills the worker, which the driver attributes to this case through the crash journal).
+
+type ParCase struct {
+	Config  int
+	Helpers []Helper
+	Conns   [][]Req
+	Rounds  int
+}
+
+func checkPar(c ParCase) vk.Verdict {
+	if len(c.Conns) == 0 {
+		return vk.Verdict{Skip: true}
+	}
+	w := newWorld(c.Config, c.Helpers)
+	raws := make([][]byte, len(c.Conns))
+	for i, conn := range c.Conns {
+		for _, r := range conn {
+			raws[i] = append(raws[i], r.render()...)
+		}
+	}
+	type res struct {
+		out  []byte
+		err  error
+		hung bool
+	}
+	for round := 0; round < max(c.Rounds, 1); round++ {
+		outs := make([]res, len(raws))
+		var wg sync.WaitGroup
+		start := make(chan struct{})
+		for i := range raws {
+			wg.Add(1)
+			go func(i int) {
+				defer wg.Done()
+				<-start
+				o, e, h := vk.WireTimeout(w.app, raws[i], 20*time.Second)
+				outs[i] = res{o, e, h}
+			}(i)
+		}
+		close(start)
+		wg.Wait()
+		for i, o := range outs {
+			ctx := fmt.Sprintf("config %d, helpers %+v, %d connections served at once, connection %d bytes %q", c.Config%nConfigs, c.Helpers, len(raws), i, clip(raws[i], 500))
+			if o.hung {
+				return vk.Failf("%s: the server did not finish the connection within 20 s", ctx)
+			}
+			if o.err != nil {
+				return vk.Failf("%s: %v", ctx, o.err)
+			}
+			ok := false
+			var perr error
+			for mask := 0; mask < 1<<min(len(c.Conns[i])+1, 7) && !ok; mask++ {
+				_, perr = vk.ParseResponses(o.out, func(k int) bool { return k < 7 && mask>>k&1 == 1 })
+				ok = perr == nil
+			}
+			if !ok {
+				v := vk.Failf("%s: the output is not a well-formed HTTP/1.1 response stream: %v\noutput: %q", ctx, perr, clip(o.out, 900))
+				// the raw flash cookie (open finding C07-b) is judged by the sequential property
+				for _, h := range c.Helpers {
+					if h.Name == "flash" {
+						return vk.Verdict{Excluded: "C07-b", Classes: []string{"parallel:flash-helper"}}
+					}
+				}
+				return v
+			}
+		}
+	}
+	return vk.Verdict{NonTrivial: len(c.Conns) >= 2, Classes: []string{fmt.Sprintf("parallel-conns:%d", len(c.Conns))}}
+}
+
+var propPar = vk.Register(&vk.Prop[ParCase]{Property: property, Name: "parallel", Check: checkPar, Quick: 400, Thorough: 4000,
+	Gen: func(t *rapid.T) ParCase {
+		c := ParCase{Config: rapid.IntRange(0, nConfigs-1).Draw(t, "config"), Helpers: genHelpers(t), Rounds: rapid.IntRange(1, 4).Draw(t, "rounds")}
+		n := rapid.IntRange(2, 8).Draw(t, "nconns")
+		for i := 0; i < n; i++ {
+			var conn []Req
+			k := rapid.IntRange(1, 3).Draw(t, "nreq")
+			for j := 0; j < k; j++ {
+				conn = append(conn, genReq(t))
+			}
+			c.Conns = append(c.Conns, conn)
+		}
+		if rapid.Bool().Draw(t, "negotiate") {
+			// every request negotiates with parameterised ranges (pooled per-range state is then in use on all connections)
+			for i := range c.Conns {
+				for j := range c.Conns[i] {
+					r := &c.Conns[i][j]
+					var hs [][2]string
+					for _, h := range r.Headers {
+						if !strings.EqualFold(h[0], "Accept") {
+							hs = append(hs, h)
+						}
+					}
+					r.Headers = append(hs, [2]string{"Accept", rapid.SampledFrom([]string{"text/plain;format=flowed, */*", "text/html;level=1, text/html;level=2;q=0.5, */*;q=0.1",
+						"application/json;v=2, text/*", "text/html;a=b;c=d, text/plain;format=fixed;q=0.9, */*;q=0.8", "image/png;x=1, application/json;y=2;q=0.7, text/plain;z=3;q=0.6, */*;q=0.1"}).Draw(t, "acc")})
+					if r.Method != "GET" && r.Method != "POST" {
+						r.Method = "GET"
+					}
+					r.Target, r.Proto, r.Mut = "/o/x/y", "", ""
+				}
+			}
+		}
+		return c
+	}})
+
+func TestParallel(t *testing.T) { propPar.Run(t) }
